@@ -15,6 +15,9 @@ mod util;
 use std::path::PathBuf;
 use util::{Ctx, Tier};
 
+#[global_allocator]
+static GLOBAL: util::alloc::QpvAlloc = util::alloc::QpvAlloc;
+
 fn usage() -> ! {
     eprintln!("usage: qpv check <ID> [--tier quick|thorough] [--replay <file>]");
     std::process::exit(2);
@@ -31,6 +34,11 @@ fn main() {
         std::panic::set_hook(Box::new(|_| {}));
     }
     match args[1].as_str() {
+        "c29-child" => {
+            let ei: usize = args[2].parse().unwrap_or_else(|_| usage());
+            let c: usize = args[3].parse().unwrap_or_else(|_| usage());
+            props::config::c29_child(ei, c, &args[4]);
+        }
         "check" => {
             if args.len() < 3 {
                 usage();
@@ -99,6 +107,9 @@ fn dispatch(ctx: &Ctx) -> bool {
         "C13" => props::pubprops::run(ctx, props::pubprops::Which::C13),
         "C36" => props::pubprops::run_c36(ctx),
         "C24" => props::parsers::run(ctx),
+        "C35" => props::jsonprops::run(ctx),
+        "C28" => props::config::run_c28(ctx),
+        "C29" => props::config::run_c29(ctx),
         "C25" => props::encodings::run_c25(ctx),
         "C26" => props::encodings::run_c26(ctx),
         "C27" => props::encodings::run_c27(ctx),
@@ -134,6 +145,8 @@ fn run_replay(id: &str, path: &PathBuf) -> i32 {
             if id == "C12" { props::pubprops::Which::C12 } else { props::pubprops::Which::C13 },
         ),
         Some(k) if k.starts_with("c25_") || k.starts_with("c26_") || k.starts_with("c27_") => props::encodings::replay(case),
+        Some(k) if k.starts_with("c28_") || k.starts_with("c29") => props::config::replay(case),
+        Some(k) if k.starts_with("c35_") => props::jsonprops::replay(case),
         Some("c24") | Some("c24_pilen") => props::parsers::replay(case),
         other => Err(format!("no replay handler for kind {:?}", other)),
     };
